@@ -70,7 +70,7 @@ def dress_rows(spec, rows):
 class C20(Check):
     ID = 'C20'
     LEVEL = 'exploration'
-    BUDGET = {'quick': 22, 'thorough': 240}
+    BUDGET = {'quick': 75, 'thorough': 240}
     RULE = ('case = (row count, dump batch_size b, load batch sizes, row_group_size, compression, schema, path|file object, data seed); '
             'row counts from {0,1,2,b-1,b,b+1,2b-1,2b,2b+1,3b,5b, random <= 5000} for b in {1,2,3,7,64,1000,2000, random}; load batch '
             '1..2000; row_group_size None/small; compression none/snappy/gzip/zstd; schemas single int, flat int/string/float, nested '
@@ -94,7 +94,7 @@ class C20(Check):
         return self.tmp
 
     def generate(self, rng, tier, shard, nshards):
-        n = 400 if tier == 'quick' else 10 ** 7
+        n = 96 if tier == 'quick' else 10 ** 7
         bs = [1, 2, 3, 7, 64, 1000, 2000]
         comps = ['none', 'snappy', 'gzip', 'zstd']
         for k in range(n):
